@@ -189,7 +189,13 @@ func (l *Lexer) embeddedCodeToken() token.Token {
 	case ')':
 		return l.rightParenthesesToken()
 	case '"', '\'':
-		return l.newToken(token.STR, l.readString())
+		str, isClosed := l.readString()
+
+		if !isClosed {
+			return l.newToken(token.ILLEGAL, str)
+		}
+
+		return l.newToken(token.STR, str)
 	case '<':
 		if l.peekChar() == '=' {
 			l.tokenBegins()
@@ -439,16 +445,20 @@ func (l *Lexer) isPotentiallyLong(tok token.TokenType) bool {
 		(tok == token.CONTINUE && l.char == 'I' && l.peekChar() == 'f')
 }
 
-func (l *Lexer) readString() string {
+// readString returns the content of a string literal. When the closing
+// quote is missing it returns the rest of the input, starting from the
+// opening quote, and false.
+func (l *Lexer) readString() (string, bool) {
 	quote := l.char
 	result := ""
+	startPos := l.pos
 
 	l.tokenBegins()
 	l.readChar() // skip the first quote
 
 	if l.char == quote {
 		l.readChar() // skip the last quote
-		return result
+		return result, true
 	}
 
 	pos := l.pos
@@ -463,12 +473,16 @@ func (l *Lexer) readString() string {
 		}
 	}
 
+	if l.char == 0 {
+		return l.input[startPos:], false
+	}
+
 	result = l.input[pos:l.pos]
 
 	l.readChar() // skip the last quote
 
 	// remove slashes before quotes
-	return strings.ReplaceAll(result, "\\"+string(quote), string(quote))
+	return strings.ReplaceAll(result, "\\"+string(quote), string(quote)), true
 }
 
 func (l *Lexer) readNumber() (string, bool) {
